@@ -27,7 +27,7 @@ def cfg_lay(tier):
     q = tier != "thorough"
     return ["SPECIFICATION Spec", "CONSTANTS",
             " LKinds <- KQ" if q else " LKinds <- KAll", " NSs <- N12", " NFs <- N12",
-            " Orders <- OQ", f" IKindsMain <- {'IRestQ' if q else 'IAll'}", " IKindsRest <- IInt",
+            " Orders <- OQ", f" IKindsMain <- {'IQ17' if q else 'IAll'}", " IKindsRest <- IInt",
             " NameChoices <- NQ" if not q else " NameChoices <- NQ", " Flags <- FlQ", " Faults <- FaultsC17",
             *[f"INVARIANT {i}" for i in INV], "CHECK_DEADLOCK FALSE"]
 
@@ -132,11 +132,11 @@ def eval_layout(i, scn):
     cross = (i % 3 == 2)
     try:
         if cross:
-            m = xe.cross.MCA(n_modes=1, sample_name=sname, feature_name=[fname + "1", fname + "2"], use_pca=False)
+            m = xe.cross.MCA(n_modes=1, sample_name=sname, feature_name=[fname + "1", fname + "2"], use_pca=False, center=lay["flags"] != "none")
             m.fit(data, data, sdims)
             call = lambda d: m.transform(d, data)  # noqa: E731
         else:
-            m = xe.single.EOF(n_modes=1, sample_name=sname, feature_name=fname, standardize=lay["flags"] == "std")
+            m = xe.single.EOF(n_modes=1, sample_name=sname, feature_name=fname, standardize=lay["flags"] == "std", center=lay["flags"] != "none")
             m.fit(data, sdims)
             call = lambda d: m.transform(d)  # noqa: E731
     except Exception as e:  # noqa
@@ -268,7 +268,7 @@ def eval_param(i, scn):
 
 
 def main():
-    a, rep, replay = parse(PROP)
+    a, rep, replay = parse(PROP, aged=True)
     rep.level = "fault_enumeration"
     rep.assumptions = ["'refused' = any exception raised by the call; 'answered' = the call returned",
                        "faults the statement does not classify (same feature labels in another order) can never alarm"]
